@@ -92,8 +92,9 @@ def succ(state, B):
              (last == 'C' and 'branch' in B.mult_on) or \
              (last == 'BC' and 'branch' in B.mult_on and toks[-2] == (')',))
         if ok:
+            cls = 'MN' if last == 'N' else 'M'
             for k in B.mults:
-                out.append((toks + (('m', k),), nn, depth, 'M', opens, nr, nb, na, nm + 1, prev, stack, edges))
+                out.append((toks + (('m', k),), nn, depth, cls, opens, nr, nb, na, nm + 1, prev, stack, edges))
     # ring markers directly after a node (or after other ring markers / a ring bond symbol)
     if last in ('N', 'P', 'BN'):
         if last != 'BN':
@@ -127,8 +128,8 @@ def succ(state, B):
                 out.append((toks + (('r', rid, st),), nn, depth, 'P' if st == 'p' else 'N',
                             opens + ((rid, prev),), nr + 1, nb, na, nm, prev, stack, edges))
     # bond symbols
-    if last in ('N', 'P', 'C', 'M') and can_bond and B.bonds and nn < B.max_nodes:
-        cls = {'N': 'BN', 'P': 'BN', 'C': 'BC', 'M': 'BM'}[last]
+    if last in ('N', 'P', 'C', 'M', 'MN') and can_bond and B.bonds and nn < B.max_nodes:
+        cls = {'N': 'BN', 'P': 'BN', 'C': 'BC', 'M': 'BM', 'MN': 'BC'}[last]
         if cls == 'BC' and 'post' not in B.bond_positions and 'pre' not in B.bond_positions:
             pass
         else:
@@ -144,13 +145,13 @@ def succ(state, B):
         if ok:
             out.append((toks + (('(',),), nn, depth + 1, 'O', opens, nr, nb, na, nm, prev, stack + (prev,), edges))
     # close branch
-    if depth > 0 and last in ('N', 'P', 'C', 'M'):
+    if depth > 0 and last in ('N', 'P', 'C', 'M', 'MN'):
         out.append((toks + ((')',),), nn, depth - 1, 'C', opens, nr, nb, na, nm, stack[-1], stack[:-1], edges))
     return out
 
 
 def complete(state):
-    return state[2] == 0 and not state[4] and state[3] in ('N', 'P', 'C', 'M')
+    return state[2] == 0 and not state[4] and state[3] in ('N', 'P', 'C', 'M', 'MN')
 
 
 def ser(tokens, braces=True):
@@ -298,19 +299,32 @@ def expand_ast(chain):
     out = []
     for u in chain:
         branches = [(b, expand_ast(sub)) for b, sub in u['branches']]
+        pre = []
+        bond = u['bond']
+        rings = u['rings']
+        if u['nmult'] > 1 and (u['has_bmult'] or branches):
+            # X|n followed by branches: n-1 plain copies, the last copy carries the branches
+            for i in range(u['nmult'] - 1):
+                pre.append({'bond': bond if i == 0 else None, 'node': u['node'], 'rings': rings if i == 0 else [],
+                            'branches': [], 'nmult': 1, 'bmult': 1, 'bsym': None, 'has_bmult': False})
+            bond = None
+            rings = []
+        out.extend(pre)
         if u['has_bmult']:
             for i in range(u['bmult']):
-                out.append({'bond': u['bond'] if i == 0 else u['bsym'], 'node': u['node'], 'rings': [],
+                out.append({'bond': bond if i == 0 else u['bsym'], 'node': u['node'], 'rings': [],
                             'branches': branches, 'nmult': 1, 'bmult': 1, 'bsym': None, 'has_bmult': False})
-        elif u['nmult'] > 1:
+        elif u['nmult'] > 1 and not pre:
             n = u['nmult']
             for i in range(n):
                 out.append({'bond': u['bond'] if i == 0 else None, 'node': u['node'],
                             'rings': u['rings'] if i == 0 else [],
-                            'branches': branches if i == n - 1 else [],
+                            'branches': [],
                             'nmult': 1, 'bmult': 1, 'bsym': None, 'has_bmult': False})
         else:
             v = dict(u)
+            v['bond'] = bond
+            v['rings'] = rings
             v['branches'] = branches
             v['nmult'] = 1
             out.append(v)
